@@ -1,18 +1,31 @@
 #!/bin/bash
 # tools/confirm_seed.sh <worktree> <seed-dir>: independent confirmation of a seeded change
 # 1. demo passes on the clean worktree, 2. patch applies, 3. demo fails with it, 4. baseline OK with it
+# FEATURES="derive" (etc.) adds --features to the demo runs; *.rs files named seeded_C* are tests,
+# any other *.rs file of the seed is an example program the test spawns; a seed with a run.sh
+# script in a sub-directory (C20) is run through that script instead.
 WT=$1; D=$2
 cd "$WT" || exit 2
 git checkout -q -- . 2>/dev/null
 export CARGO_TARGET_DIR=$WT/target
-DEMO=$(ls "$D"/*.rs 2>/dev/null | head -1)
-[ -z "$DEMO" ] && { echo "CONFIRM $(basename $D): no demo .rs"; exit 1; }
-T=$(basename "$DEMO" .rs)
-cp "$DEMO" "$WT/tests/$T.rs"
-cargo test --offline --test "$T" >/tmp/confirm_clean.log 2>&1; CLEAN=$?
+FEAT=${FEATURES:+--features "$FEATURES"}
+SCRIPT=$(ls "$D"/*/run.sh 2>/dev/null | head -1)
+if [ -n "$SCRIPT" ]; then
+  SD=$(dirname "$SCRIPT"); rm -rf "$WT/$(basename $SD)"; cp -r "$SD" "$WT/"
+  demo() { bash "$WT/$(basename $SD)/run.sh"; }
+else
+  DEMO=$(ls "$D"/seeded_C*.rs 2>/dev/null | head -1)
+  [ -z "$DEMO" ] && { echo "CONFIRM $(basename $D): no demo"; exit 1; }
+  T=$(basename "$DEMO" .rs)
+  cp "$DEMO" "$WT/tests/$T.rs"
+  for f in "$D"/*.rs; do case $(basename $f) in seeded_C*) ;; *) cp "$f" "$WT/examples/"; esac; done
+  demo() { eval cargo build --offline --examples $FEAT >/dev/null 2>&1; eval cargo test --offline $FEAT --test "$T"; }
+fi
+demo >/tmp/confirm_clean_$$.log 2>&1; CLEAN=$?
 git apply --check "$D/patch.diff" 2>/dev/null || { echo "CONFIRM $(basename $D): patch does not apply"; exit 1; }
 git apply "$D/patch.diff"
-cargo test --offline --test "$T" >/tmp/confirm_patched.log 2>&1; PATCHED=$?
+demo >/tmp/confirm_patched_$$.log 2>&1; PATCHED=$?
 BASE=$(/verif/tools/baseline.sh "$WT" 2>&1 | tail -1)
 git checkout -q -- .
+rm -f /tmp/confirm_clean_$$.log /tmp/confirm_patched_$$.log
 echo "CONFIRM $(basename $D): demo_clean_rc=$CLEAN (want 0) demo_patched_rc=$PATCHED (want !=0) baseline='$BASE'"
